@@ -547,6 +547,12 @@ def rule_r3(ctx, passes, ef):
         flags = _flag_vars(f) | _nonlocal_flags(f)
         if not flags:
             continue
+        if not _nonlocal_flags(f) and not _returns_result(f) and not _writes_ir(ef, f):
+            # a function that changes nothing (directly or through its callees) reports no modification: an integer it
+            # computes in a loop is a measurement (a length, an index), not an accumulated flag
+            ctx.ob("R3", f"{f.local}: computes a number, writes no IR state", True, nontrivial=False,
+                   how="effect summary of the function is free of IR writes")
+            continue
         for n in own_nodes(f.node):
             tgt = None
             if isinstance(n, ast.Assign) and len(n.targets) == 1 and isinstance(n.targets[0], ast.Name):
@@ -577,6 +583,14 @@ def rule_r3(ctx, passes, ef):
                       f"inside a loop the flag `{tgt}` is overwritten by a value that can be false: an earlier "
                       "modification is forgotten and the pass can report modified=False after changing the model",
                       how="assignment form is monotone (True / x or flag / |= / +=)")
+
+
+def _writes_ir(ef, f) -> bool:
+    try:
+        s = ef.summary(f)
+    except KeyError:
+        return True
+    return bool(s.mods or s.qmods)
 
 
 def _per_iteration_local(n, tgt, f) -> bool:
